@@ -174,6 +174,8 @@ pub fn wait_fg_job(sh: &mut shell::Shell, gid: i32, pids: &[i32]) -> CommandResu
                 // for stop signal of fg job (current job)
                 // i.e. Ctrl-Z is pressed on the fg job
                 mark_job_member_stopped(sh, pid, gid, true);
+                #[cfg(cicada_verif)]
+                crate::verif_hooks::delay_point("fgwait_after_stop");
             } else {
                 // for stop signal of bg jobs
                 signals::insert_stopped_map(pid);
